@@ -1,0 +1,61 @@
+//! Observation hooks for external runtime monitors.
+//!
+//! Only compiled with `--cfg harper_verif`; never part of a normal build.
+//! A monitor installs a thread-local sink and receives [`Event`]s emitted from
+//! a few places in the lint pipeline. Without a sink the hooks do nothing.
+
+use std::cell::RefCell;
+
+use crate::Token;
+use crate::linting::Lint;
+
+pub enum Event<'a> {
+    /// A rule of a `LintGroup` was executed and produced `lints`
+    /// (document-space for whole-document rules, still document-space for
+    /// pattern rules, which are emitted before being made chunk-relative).
+    RuleRan {
+        rule: &'a str,
+        pattern: bool,
+        lints: &'a [Lint],
+    },
+    /// The chunk cache of a `LintGroup` was consulted.
+    ChunkCache { hit: bool, chunk_len: usize },
+    /// The suggestion cache of `SpellCheck` was consulted.
+    WordCache { hit: bool },
+    /// `Document::parse` finished a pass; `name == "parser"` is the raw parser output.
+    Stage {
+        name: &'static str,
+        tokens: &'a [Token],
+        source: &'a [char],
+    },
+}
+
+type Sink = Box<dyn FnMut(&Event<'_>)>;
+
+thread_local! {
+    static SINK: RefCell<Option<Sink>> = const { RefCell::new(None) };
+}
+
+/// Install (or remove) the sink of the calling thread. Returns the previous one.
+pub fn set_sink(sink: Option<Sink>) -> Option<Sink> {
+    SINK.with(|s| std::mem::replace(&mut *s.borrow_mut(), sink))
+}
+
+pub fn emit(event: &Event<'_>) {
+    SINK.with(|s| {
+        // Re-entrant emission (a sink that itself lints) is silently dropped.
+        if let Ok(mut guard) = s.try_borrow_mut() {
+            if let Some(f) = guard.as_mut() {
+                f(event)
+            }
+        }
+    })
+}
+
+pub fn stage(name: &'static str, tokens: &[Token], source: &[char]) {
+    emit(&Event::Stage {
+        name,
+        tokens,
+        source,
+    })
+}
